@@ -128,8 +128,13 @@ def adj_tags(t, out=None):
             out.add(f"adj:{p_}>{c_}:{side}")
             if t["t"] == "bin" and c["t"] == "bin" and t["op"] in CMP and c["op"] in CMP:
                 out.add("cmp-in-cmp")
-            if t["t"] == "bin" and c["t"] == "bin" and c["op"] == "%" and side == "r" and t["op"] == "*":
-                out.add("mod-right-of-mul")
+            if t["t"] == "bin" and t["op"] == "*" and side == "r":
+                # a % anywhere on the left spine of the right operand, through operators of the same level
+                x = c
+                while x["t"] == "bin" and x["op"] in ("*", "/", "%"):
+                    if x["op"] == "%":
+                        out.add("mod-right-of-mul")
+                    x = x["l"]
             if c["t"] == "bin" and c["op"] == "//" and ((t["t"] == "bin" and t["op"] in ("*", "/", "//", "%")) or t["t"] == "un"):
                 out.add("divi-operand")
         if c["t"] != "col" and c["t"] != "lit":
